@@ -354,7 +354,7 @@ def _rec_text(d):
     return "[" + ", ".join("%s |-> %s" % (k, v) for k, v in sorted(d.items())) + "]" if d else "[zznone |-> 0]"
 
 
-def make_walk_module(spec, variables, recs, labels, require_init):
+def make_walk_module(spec, variables, recs, labels, require_init, conform=True):
     """recs: list of dicts: {"k": "i", "st": text} | {"k": "a"/"s", "p": proc, "lb": label, "d": {var: text}} | {"k": "u", "d": {...}}"""
     out = []
     for r in recs:
@@ -381,32 +381,39 @@ ZApply(zd) == %(apply)s
 ZK(zk) == l < Len(ZTrace) /\\ ZTrace[l + 1].k = zk /\\ l' = l + 1
 TraceInit == l = 1 /\\ ZMatch(ZTrace[1].st)%(init)s
 %(act)s
-TraceAct == ZK("a") /\\ ZApply(ZTrace[l + 1].d) /\\ ZAct(ZTrace[l + 1].p, ZTrace[l + 1].lb)
-TraceStep == ZK("s") /\\ ZApply(ZTrace[l + 1].d) /\\ Next
+TraceAct == ZK("a") /\\ ZApply(ZTrace[l + 1].d)%(zact)s
+TraceStep == ZK("s") /\\ ZApply(ZTrace[l + 1].d)%(znext)s
 TraceUndo == ZK("u") /\\ ZApply(ZTrace[l + 1].d)
 TraceNext == TraceAct \\/ TraceStep \\/ TraceUndo
 ====
 """ % {"spec": spec, "data": ",\n".join(out), "match": match, "apply": apply_, "act": act,
-       "init": " /\\ Init" if require_init else ""}
+       "init": " /\\ Init" if (require_init and conform) else "",
+       "zact": " /\\ ZAct(ZTrace[l + 1].p, ZTrace[l + 1].lb)" if conform else "", "znext": " /\\ Next" if conform else ""}
 
 
-def validate_walk_pieces(specdir, spec, variables, pieces, constants, labels, timeout=1800, par=8):
+def validate_walk_pieces(specdir, spec, variables, pieces, constants, labels, timeout=1800, par=8, conform=True, invariants=()):
     """pieces: list of dict(recs=[...], init=bool). Each piece is one TLC job. Returns list of results
     dict(ok, stuck_at (0-based record index or None), states, generated, error)."""
     cfgtext = "INIT TraceInit\nNEXT TraceNext\nCHECK_DEADLOCK FALSE\nCONSTANTS\n" + "".join("  %s = %s\n" % kv for kv in constants.items())
+    cfgtext += "".join("INVARIANT %s\n" % i for i in invariants)
 
     def work(pc):
         w = tempfile.mkdtemp(prefix="wk.", dir=os.path.dirname(specdir))
         V.copy_specs(specdir, w)
         with open(os.path.join(w, spec + "Walk.tla"), "w") as f:
-            f.write(make_walk_module(spec, variables, pc["recs"], labels, pc.get("init", False)))
+            f.write(make_walk_module(spec, variables, pc["recs"], labels, pc.get("init", False), conform))
         with open(os.path.join(w, spec + "Walk.cfg"), "w") as f:
             f.write(cfgtext)
         res = V.tlc(w, spec + "Walk", cfg=spec + "Walk.cfg", workers=1, timeout=timeout, deadlock=False)
         shutil.rmtree(w, ignore_errors=True)
-        r = {"ok": False, "stuck_at": None, "states": res.distinct, "generated": res.generated, "error": None}
+        r = {"ok": False, "stuck_at": None, "states": res.distinct, "generated": res.generated, "error": None, "violation": None, "violated_at": None}
         if res.timed_out or res.error:
             r["error"] = (res.error or "timeout") + " :: " + res.out[-1200:]
+        elif res.violation and invariants:
+            # the state that violates the invariant is the one reached by record l-1 (0-based: l - 1)
+            m = re.findall(r"^/\\ l = (\d+)", res.out, re.M)
+            r["violation"] = res.violation
+            r["violated_at"] = (int(m[-1]) - 1) if m else 0
         elif res.violation:
             r["error"] = "unexpected violation: " + res.violation
         elif res.depth < len(pc["recs"]):
